@@ -646,19 +646,21 @@ class SyncedEnforcer:
             return self._e.remove_named_grouping_policies(ptype, rules)
 
     def build_incremental_role_links(self, op, ptype, rules):
-        self.get_model().build_incremental_role_links(self.get_role_manager(), op, "g", ptype, rules)
+        with self._wl:
+            self._e.get_model().build_incremental_role_links(self._e.get_role_manager(), op, "g", ptype, rules)
 
     def new_enforce_context(self, suffix: str) -> "EnforceContext":
         return self._e.new_enforce_context(suffix)
 
     def get_field_index(self, ptype, field):
         """gets the index of the field name."""
-        return self._e.model.get_field_index(ptype, field)
+        with self._rl:
+            return self._e.get_field_index(ptype, field)
 
     def set_field_index(self, ptype, field, index):
         """sets the index of the field name."""
-        assertion = self._e.model["p"][ptype]
-        assertion.field_index_map[field] = index
+        with self._wl:
+            return self._e.set_field_index(ptype, field, index)
 
     def get_all_roles_by_domain(self, domain):
         """gets all roles associated with the domain.
